@@ -134,11 +134,24 @@ pub fn near_miss(kind: usize, n: usize, raw: &[(u16, u16)]) -> Dg {
         "tournament-swap (size-preserving non-tournament)" => {
             tournament(&mut a);
             if pairs.len() >= 2 {
-                let i = gen::idx(r(900).0, pairs.len());
-                let mut j = gen::idx(r(901).0, pairs.len() - 1);
-                if j >= i {
-                    j += 1;
-                }
+                // half of the time both special pairs lie among the last four vertices
+                // (a dropped tail of a row partition hides exactly there)
+                let tail: Vec<usize> = (0..pairs.len()).filter(|&k| pairs[k].0 + 4 >= n).collect();
+                let (i, j) = if r(900).1 % 2 == 0 && tail.len() >= 2 {
+                    let a = gen::idx(r(900).0, tail.len());
+                    let mut b = gen::idx(r(901).0, tail.len() - 1);
+                    if b >= a {
+                        b += 1;
+                    }
+                    (tail[a], tail[b])
+                } else {
+                    let i = gen::idx(r(900).0, pairs.len());
+                    let mut j = gen::idx(r(901).0, pairs.len() - 1);
+                    if j >= i {
+                        j += 1;
+                    }
+                    (i, j)
+                };
                 let (p, q) = (pairs[i], pairs[j]);
                 a.insert(p);
                 a.insert((p.1, p.0));
@@ -164,7 +177,12 @@ pub fn near_miss(kind: usize, n: usize, raw: &[(u16, u16)]) -> Dg {
                 }
             }
             if !pairs.is_empty() {
-                let q = pairs[gen::idx(r(902).0, pairs.len())];
+                let tail: Vec<usize> = (0..pairs.len()).filter(|&k| pairs[k].0 + 4 >= n).collect();
+                let q = if r(902).1 % 2 == 0 && !tail.is_empty() {
+                    pairs[tail[gen::idx(r(902).0, tail.len())]]
+                } else {
+                    pairs[gen::idx(r(902).0, pairs.len())]
+                };
                 a.remove(&q);
                 a.remove(&(q.1, q.0));
             }
